@@ -587,6 +587,48 @@ def run(chk):
     _unsignedwrap_rule(chk)
     _modexact_rule(chk)
     _vmnarrow_rule(chk)
+    _scanrange_rule(chk)
     chk.floor("C14-DIV", 8)
     chk.floor("C14-WRAP", 10)
     chk.floor("C14-METHODS", 40)
+
+
+def _scanrange_rule(chk):
+    """The text scanner behind int/s64, numeric-string operands and the :s literal reads sign and magnitude apart.  A
+    negative value may have magnitude 2^63, a non-negative one only 2^63 - 1: a single limit for both signs accepts
+    "9223372036854775808" and the cast turns it into INT64_MIN instead of raising."""
+    rule = "C14-SCANRANGE"
+    chk.rule(rule, "janet_scan_int64 stores a result only where the sign is known negative or the magnitude was compared with INT64_MAX")
+    prog = Program.load("default", units=["strtod.c"])
+    fn = prog.need_func("janet_scan_int64", "strtod.c")
+    chk.analysed(fn)
+    stores = [x for x in fn.nodes if x.k == "asg" and x.op == "=" and x.kids[0].k == "un" and x.kids[0].op == "*" and
+              strip_casts(x.kids[0].kids[0]).k == "ref" and strip_casts(x.kids[0].kids[0]).name == "out"]
+    if not stores:
+        raise AnalysisBroken("janet_scan_int64: no store through `out`")
+    # the sign flag: the int local whose address goes to the unsigned scanner
+    IN, T = flow.condition_facts(fn)
+    res = {}
+    for x, S in flow.states_at(fn, IN, T):
+        if x in stores:
+            def fine(ps):
+                for (op, l, r, toks, ln, rn) in ps:
+                    if ln is None:
+                        continue
+                    a = strip_casts(ln)
+                    if a.k == "ref" and a.name == "neg" and op == "!=" and (rn is None or rn.v == 0):
+                        return True
+                    if rn is not None and op in ("<=", "<") and a.k == "ref" and \
+                            (any("INT64_MAX" in y.macro_names() for y in rn.walk()) or rn.v == 2 ** 63 - 1 or (op == "<" and rn.v == 2 ** 63)):
+                        return True
+                return False
+            res[id(x)] = bool(S) and all(fine(ps) for ps in S)
+    for x in stores:
+        chk.instance(rule)
+        if res.get(id(x)):
+            chk.ok(rule, "janet_scan_int64: `%s` on a negative path or below INT64_MAX" % x.text()[:40])
+        else:
+            chk.violation(rule, "strtod.c", "janet_scan_int64", "store:" + x.kids[1].text()[:24].replace(" ", ""), x.loc,
+                          "`%s` is reached for a non-negative input whose magnitude was not compared with INT64_MAX: the text "
+                          "9223372036854775808 (2^63) is accepted and becomes INT64_MIN instead of an error" % x.text()[:60])
+    chk.floor(rule, 1, len(stores))
